@@ -46,7 +46,7 @@ THEOREMS = [
     "model_exprs_ok", "check_all_sound", "check_rot_sound", "check_enu_sound", "check_delta_sound",
     "check_acr_mat_sound", "check_acr_delta_sound", "check_normal_sound", "normal_frame_complete", "check_azel_sound",
     "elevation_clip_irrelevant", "az_el_at_zenith", "az_el_at_nadir",
-    "det_l_rows3", "posvel_block_is_rotation", "enu_block_is_rotation", "acr_block_roundtrip",
+    "det_l_rows3", "posvel_block_is_rotation", "enu_block_is_rotation", "acr_block_roundtrip", "enu_acr_composition",
     "acr_1d_transposed_refuted",
 ]
 
@@ -262,6 +262,33 @@ def run(ctx):
                 ctx.case(("enu", to_trs, float(la), float(lo), form), nontrivial=True, sample=rep if i == 30 and to_trs else None)
                 ctx.count(f"enu:{name.split('.')[1]}:{form}:{'pole' if abs(abs(la) - PI / 2) < 1e-9 else 'general'}")
 
+    # ---- B'. the same functions called with keyword arguments (any order, mixed with positional) and every scalar-like input type
+    kw_pairs = [(0.3, 1.1), (-0.9, 2.5), (PI / 2, 0.7), (-1e-10, -3.0), (1.2, -0.4)] + [gen_latlon(rng) for _ in range(6 if q else 60)]
+    for to_trs, f, name in ((True, rotation.enu2trs, "rotation.enu2trs"), (False, rotation.trs2enu, "rotation.trs2enu")):
+        for tname, cast in (("float", float), ("np.float64", np.float64), ("0-d array", lambda x: np.array(float(x))),
+                            ("(1,) array", lambda x: np.array([float(x)])), ("(n,) array", None)):
+            if cast is None:
+                a_in = lambda: fresh([x[0] for x in kw_pairs])
+                b_in = lambda: fresh([x[1] for x in kw_pairs])
+            for j, (la, lo) in enumerate(kw_pairs if cast is not None else [(None, None)]):
+                if cast is not None:
+                    a_in = lambda: cast(la)
+                    b_in = lambda: cast(lo)
+                for cname, call in (("f(lon=lon, lat=lat)", lambda: f(lon=b_in(), lat=a_in())), ("f(lat=lat, lon=lon)", lambda: f(lat=a_in(), lon=b_in())),
+                                    ("f(lat, lon=lon)", lambda: f(a_in(), lon=b_in()))):
+                    res = out(call())
+                    rows = kw_pairs if cast is None else [(la, lo)]
+                    want = (len(kw_pairs), 3, 3) if cast is None else ((1, 3, 3) if tname == "(1,) array" else (3, 3))
+                    if not shape_ok(f"{name} {cname} [{tname}]", res, want, dict(kind="enu", fn=name)):
+                        continue
+                    res = res.reshape(-1, 3, 3)
+                    for k, (la_, lo_) in enumerate(rows):
+                        rep = dict(kind="enu", fn=name, lat=float(la_), lon=float(lo_), input_form=f"{cname} [{tname}]", observed=fl(res[k]),
+                                   how=f"{name}: {cname} with lat={la_!r}, lon={lo_!r} as {tname}")
+                        fam["enu"].add(emit.pair(emit.b(to_trs), emit.dy(la_), emit.dy(lo_), dys(res[k])), rep)
+                        ctx.case(("enu-kw", to_trs, float(la_), float(lo_), cname, tname), nontrivial=True)
+                    ctx.count(f"enu:keyword:{cname}:{tname}")
+
     # ---- C. reference positions in every system (trs, llh) on every ellipsoid; the triad against the ellipsoid normal at the
     #         position (independent of midgard's latitude/longitude); difference vectors, shapes (3,), (1,3), (n,3)
     from midgard.math import ellipsoid as ELL
@@ -382,12 +409,8 @@ def run(ctx):
         do_refs(shape, system, ell, rows, "random")
 
     # ---- D. along / cross / radial
-    n_orb = 30 if q else 320
-    for _ in range(n_orb):
-        shape = rng.choice(["(6,)", "(1,6)", "(n,6)", "(n,6)"])
-        n = 1 if shape != "(n,6)" else rng.randrange(2, 5)
-        states = np.array([gen_state(rng) for _ in range(n)])
-        dd6 = np.array([np.concatenate([gen_delta(rng), gen_delta(rng) * 1e-3]) for _ in range(n)])
+    def do_orbit(shape, states, dd6, tag):
+        n = len(states)
         mk = (lambda a: fresh(a[0])) if shape == "(6,)" else (lambda a: fresh(a))
         pv = PosVel(mk(states), system="trs")
         t2a = out(pv.trs2acr).reshape(-1, 3, 3)
@@ -433,6 +456,59 @@ def run(ctx):
             for dd, bb in ((dd6[i, :3], back[i, :3]), (dd6[i, 3:], back[i, 3:])):
                 fam["rt"].add(emit.pair(dys(dd), dys(bb)), dict(base, kind="roundtrip", d=fl(dd), back=fl(bb), how="posvel .acr.trs"))
                 ctx.case(("rt-acr", fl(states[i]), fl(dd)), nontrivial=bool(dd.any()))
+        # histories on ONE object: differences given in a local frame, converted to the other local frame (two hops over trs) and
+        # asked for .trs before and/or after; every answer against the rotation model, not only against each other
+        pv_llh = out(pv.pos.llh.val).reshape(-1, 3)
+        fresh_e = conv("PosVelDelta(d, 'enu', ref_pos=pv).trs.val", lambda: PosVelDelta(mk(dd6), system="enu", ref_pos=pv).trs.val, want6, 6, srep)
+        fresh_a = conv("PosVelDelta(d, 'acr', ref_pos=pv).trs.val", lambda: PosVelDelta(mk(dd6), system="acr", ref_pos=pv).trs.val, want6, 6, srep)
+        hist = []
+        for src, other in (("enu", "acr"), ("acr", "enu")):
+            for order in ("other,trs", "trs,other,trs"):
+                obj = PosVelDelta(mk(dd6), system=src, ref_pos=pv)
+                if order.startswith("trs"):
+                    obj.trs.val
+                o_val = conv(f"PosVelDelta(d, {src!r}, ref_pos=pv).{other}.val", lambda: getattr(obj, other).val, want6, 6, srep)
+                t_val = conv(f"PosVelDelta(d, {src!r}, ref_pos=pv): .{other} then .trs.val", lambda: obj.trs.val, want6, 6, srep)
+                hist.append((src, other, order, o_val, t_val))
+                ctx.count(f"history:{src}->{other}:{order}")
+        for i in range(n):
+            r, v = states[i, :3], states[i, 3:]
+            la, lo = pv_llh[i, 0], pv_llh[i, 1]
+            base = dict(state=fl(states[i]), shape=shape, row=i, lat=float(la), lon=float(lo), tag=tag)
+            for lo3, hi3, half in ((0, 3, "pos"), (3, 6, "vel")):
+                dd = dd6[i, lo3:hi3]
+                def delta_case(to_trs, din, oo, how):
+                    rep = dict(base, kind="delta", to_trs=to_trs, d=fl(din), observed=fl(oo), how=how)
+                    fam["delta"].add(emit.pair(emit.b(to_trs), emit.dy(la), emit.dy(lo), dys(din), dys(oo)), rep)
+                    ctx.case(("hist-delta", to_trs, fl(states[i]), fl(din), how), nontrivial=bool(np.any(din)))
+                def acr_case(to_trs, din, oo, how):
+                    rep = dict(base, kind="acr_delta", to_trs=to_trs, d=fl(din), observed=fl(oo), how=how)
+                    fam["acrd"].add(emit.pair(emit.b(to_trs), dys(r), dys(v), dys(din), dys(oo)), rep)
+                    ctx.case(("hist-acr", to_trs, fl(states[i]), fl(din), how), nontrivial=bool(np.any(din)))
+                delta_case(True, dd, fresh_e[i, lo3:hi3], f"fresh PosVelDelta(d, 'enu', ref_pos=pv).trs [{half}]")
+                acr_case(True, dd, fresh_a[i, lo3:hi3], f"fresh PosVelDelta(d, 'acr', ref_pos=pv).trs [{half}]")
+                for src, other, order, o_val, t_val in hist:
+                    how = f"one object PosVelDelta(d, {src!r}, ref_pos=pv), accesses {order.replace('other', other)} [{half}]"
+                    if src == "enu":      # acr = trs2acr (enu2trs d);  trs = enu2trs d
+                        acr_case(False, fresh_e[i, lo3:hi3], o_val[i, lo3:hi3], how + " : the .acr value against trs2acr * (enu2trs * d)")
+                        delta_case(True, dd, t_val[i, lo3:hi3], how + " : the last .trs value against enu2trs * d")
+                    else:                 # enu = trs2enu (acr2trs d);  trs = acr2trs d
+                        delta_case(False, fresh_a[i, lo3:hi3], o_val[i, lo3:hi3], how + " : the .enu value against trs2enu * (acr2trs * d)")
+                        acr_case(True, dd, t_val[i, lo3:hi3], how + " : the last .trs value against acr2trs * d")
+
+    S0 = [15095082.616, -16985925.155, 13592114.624, 1000.0, 2000.0, -1500.0]
+    S1 = [-4.2e7 * 0.6, 4.2e7 * 0.8, 1.0e5, -2460.0, -1845.0, 30.0]
+    D0 = [1.0, 2.0, 3.0, 0.1, 0.2, 0.3]
+    D1 = [-250.0, 40.5, 7.25, 1e-3, -2e-3, 5e-4]
+    for shape, st, dd in (("(6,)", [S0], [D0]), ("(1,6)", [S1], [D1]), ("(n,6)", [S0, S1, S0], [D0, D1, D1])):
+        do_orbit(shape, np.array(st), np.array(dd), "corpus")
+    n_orb = 26 if q else 320
+    for _ in range(n_orb):
+        shape = rng.choice(["(6,)", "(1,6)", "(n,6)", "(n,6)"])
+        n = 1 if shape != "(n,6)" else rng.randrange(2, 5)
+        states = np.array([gen_state(rng) for _ in range(n)])
+        dd6 = np.array([np.concatenate([gen_delta(rng), gen_delta(rng) * 1e-3]) for _ in range(n)])
+        do_orbit(shape, states, dd6, "random")
 
     # ---- E. azimuth / elevation / zenith distance; reference and target stored in either system, any ellipsoid
     n_az = 70 if q else 600
